@@ -128,8 +128,8 @@ func (x *rx) doFetch() {
 			}
 		}
 	}
-	if loop == nil || loop.Cond != nil {
-		x.c.Undecidedf("R5.loop", "doFetch", fn.Decl.Pos(), "expected one ScanKey call inside an unconditional for loop")
+	if loop == nil {
+		x.c.Undecidedf("R5.loop", "doFetch", fn.Decl.Pos(), "expected one ScanKey call inside a for loop")
 		return
 	}
 	_, lbody := c07.RangeBlocks(g, loop)
@@ -172,6 +172,9 @@ func (x *rx) doFetch() {
 	}
 	x.verdict3("R5.loop", "doFetch/ends-on-EndNode", loop.Pos(), out, seen || len(g.Points(isEnd)) == 0, "when the scanner reports the final cursor doFetch must leave the loop: otherwise the database is scanned again from cursor 0 forever (duplicates, no termination)")
 	w = g.Path(cfgq.Query{From: cfgq.Point{B: lbody}, Avoid: isScan, Target: isEnd})
+	if w == nil { // nor before the first round (a loop whose condition or post statement asks the scanner)
+		w = g.Path(cfgq.Query{From: g.Entry(), Avoid: isScan, Target: isEnd})
+	}
 	x.check("R5.loop", "doFetch/scan-each-round", loop.Pos(), w, "every round must call ScanKey before asking EndNode(): EndNode() on the initial cursor 0 is true, so the database would be skipped without a single SCAN")
 
 	// source select tracking
@@ -180,7 +183,7 @@ func (x *rx) doFetch() {
 	if ps := fn.Decl.Type.Params.List; len(ps) == 1 && len(ps[0].Names) == 1 {
 		dbParam = x.info.Defs[ps[0].Names[0]]
 	}
-	isDB := func(e ast.Expr) bool { return dbParam != nil && c07.Obj(x.info, c07.Strip(x.info, e)) == dbParam }
+	isDB := func(e ast.Expr) bool { return dbParam != nil && c07.Obj(x.info, c07.Through(x.info, e)) == dbParam }
 	x.selectRules("doFetch", g, g.Entry(), nil, x.fieldObj("previousDb"), prev, isDB, x.cmdNode("Do", "SELECT"), scans, nil)
 
 	x.pipelines(fn, g, scans, isScan, isDB)
@@ -696,8 +699,30 @@ func (x *rx) selectRules(where string, g *cfgq.Graph, start cfgq.Point, head *cf
 			return (isTr(be.X) && isDB(be.Y) || isTr(be.Y) && isDB(be.X)) && (be.Op == token.EQL) == f.Val
 		})
 	}
+	// a call that hands the wanted database or the tracker to a function of this module: the select may be sent
+	// (and recorded) there
+	handsDB := func(n ast.Node) bool {
+		for _, call := range cfgq.ExecCalls(n) {
+			if h := x.c.FnOf(c07.CalleeF(x.info, call)); h == nil || h.Decl.Body == nil {
+				continue
+			}
+			for _, a := range call.Args {
+				if isDB(a) || isTr(a) {
+					return true
+				}
+				if u, isAddr := ast.Unparen(a).(*ast.UnaryExpr); isAddr && u.Op == token.AND && isTr(u.X) {
+					return true
+				}
+			}
+		}
+		return false
+	}
 	for i, up := range uses {
 		w := g.Path(cfgq.Query{From: start, Avoid: isSelect, AvoidEdge: equal, Target: c07.IsNode(up.Node())})
+		if w != nil && g.Path(cfgq.Query{From: start, Avoid: cfgq.Or(isSelect, handsDB), AvoidEdge: equal, Target: c07.IsNode(up.Node())}) == nil {
+			x.c.Undecidedf("R3.select", fmt.Sprintf("%s/reach#%d", where, i+1), up.Node().Pos(), "the wanted database is handed to a helper before the key is written: whether it sends `select` is not followed")
+			continue
+		}
 		x.check("R3.select", fmt.Sprintf("%s/reach#%d", where, i+1), up.Node().Pos(), w, "the key is written without `select` having been sent and without the tracker having been found equal to the wanted db: it lands in whatever database the connection was left on")
 	}
 	sels := g.Points(isSelect)
@@ -719,7 +744,9 @@ func (x *rx) selectRules(where string, g *cfgq.Graph, start cfgq.Point, head *cf
 		x.c.Check("R3.select", fmt.Sprintf("%s/select-records#%d", where, i+1), sp.Node().Pos(), !(before != nil && after),
 			"`select` is sent without recording the database in the tracker: after keys of db 1 a key of db 0 finds tracker == 0, sends no select and lands in db 1", before...)
 	}
-	if len(sels) == 0 {
+	if len(sels) == 0 && len(g.Points(handsDB)) > 0 {
+		x.c.Undecidedf("R3.select", where+"/select-arg#1", start.B.Stmt.Pos(), "no `select` is sent here, but the wanted database is handed to a helper that may send it")
+	} else if len(sels) == 0 {
 		x.c.Failf("R3.select", where+"/select-arg", start.B.Stmt.Pos(), "no `select` is ever sent: every key lands in database 0")
 	}
 	if loop != nil {
